@@ -593,6 +593,9 @@ static void do_realloc(State& S) {
                                                     ep_names[ep], (void*)p, nn, a, o, q, (size_t)(((uintptr_t)q + o) & (a - 1)));
     na = a; no = o; S.n_aligned++;
   }
+  else if (aligned && o == 0 && a > sizeof(void*) && (a & (a - 1)) == 0 && (((uintptr_t)q) & (a - 1)) != 0)
+    // the aligned realloc entry points without an offset promise an aligned result (alloc_align attribute in mimalloc.h) whatever the old block was
+    vf_trip("alignment", "C03", "%s(%p, n=%zu, align=%zu) returned %p which is not aligned to %zu (the old block was not allocated with that alignment)", ep_names[ep], (void*)p, nn, a, q, a);
   else if (!moved) { na = old.align; no = old.off; }
   else if (aligned && (((uintptr_t)q + o) & (a - 1)) == 0) { na = a; no = o; }
   else {
